@@ -105,10 +105,24 @@ def unknown_external(I, st, callee, target, args, ctx):
     return [(st, VOpaque("ext:" + k, ty))]
 
 
+STUB_PRECONDITIONS = {
+    # local path (without the crate name) -> (argument index, allowed values, description)
+    "messages::unarmor": (1, IntSet.range(0, 5), "messages::unarmor (fill count 0..5)"),
+}
+
+
 def stub(I, st, callee, target, args, ctx):
     """a local function deliberately not entered (analysed under its own root): opaque Result"""
     key = target["def"]
     st.event("call", key, tuple(valkey(a) for a in args))
+    # assume/guarantee: the callee is analysed as a root of its own under stated assumptions on its
+    # arguments; the call site must establish them
+    pre = STUB_PRECONDITIONS.get(key.split("::", 1)[-1])
+    if pre is not None:
+        idx, allowed, what = pre
+        aset = I.arg_set(st, args[idx]) if idx < len(args) else None
+        okk = isinstance(aset, IntSet) and aset.subset_of(allowed)
+        panic_obligation(I, st, ctx, "precondition of " + what, okk, None if okk else "argument %d may be %r, the callee is only proved total for %r" % (idx, aset, allowed))
     dest = ctx["term"]["dest"]
     ty = ctx["body"]["locals"][dest["l"]] if not dest["p"] else None
     n = len([e for e in st.events if e[0] == "call" and e[1] == key])
@@ -565,9 +579,7 @@ def do_count(I, st, p, nval, inp, ctx, cap=None, what="count"):
     """nom::multi::count semantics: apply p exactly n times.  Used for nom's and cross-checked
     against the interpreted local copy (C18)."""
     n = const_of(st, nval, "count")
-    if n is not None:
-        if n > 64:
-            raise Unanalysable("count too large to unroll: %d" % n)
+    if n is not None and n <= 64:
         outs = [(st, inp, [])]
         final = []
         for i in range(n):
@@ -587,6 +599,17 @@ def do_count(I, st, p, nval, inp, ctx, cap=None, what="count"):
         for (s, cur, acc) in outs:
             final.append((s, ok_pair(cur, VList(acc, cap))))
         return final
+    if n is not None:
+        # a long constant run: handled like a symbolic one (uniform fixed-width element parser)
+        shape = elem_parser_shape(I, st, p)
+        if shape is None:
+            raise Unanalysable("count too large to unroll: %d" % n)
+        k, takep, f, kind = shape
+        sl, o = cursor_parts(I, st, inp)
+        rem = bits_remaining(sl, o)
+        enough = decide_le0(st, Lin.const(n * k) - rem, "count bits")
+        if not enough:
+            return [(st, nom_err(I, "Error", VOpaque("Count")))]
     # n not constant: if it depends on a length with few possible values, enumerate those
     nl0 = lin_of(st, nval)
     for a0 in _base_atoms(nl0):
@@ -608,6 +631,8 @@ def do_count(I, st, p, nval, inp, ctx, cap=None, what="count"):
         X = sa[0][1]
         d = st.decide(("le0", X - rem))
         ok = d is True
+    elif nl.is_const():
+        ok = st.decide(("le0", nl.scale(k) - rem)) is True
     if not ok:
         raise Unanalysable("count(%r): cannot relate symbolic n to the remaining bits" % (nl,))
     pos = sl.start.scale(8) + o
@@ -634,11 +659,15 @@ def do_count(I, st, p, nval, inp, ctx, cap=None, what="count"):
         raise Unanalysable("count with symbolic n: element outcome not uniform")
     s3, ev, _ = evals[0]
     # new cursor position: pos + n*k  (symbolic) -- represented through the slice start / offset
-    total = Lin.atom(sa[0]).scale(k)
+    total = nl.scale(k)
     newpos = Lin.const(pos.c) + total
     # we cannot keep (start, offset) exact for a symbolic position; use an opaque-but-sound cursor:
-    rest = VTuple((VSlice(sl.buf, Lin.atom(("fdiv", newpos, 8, 0, MAXLEN)), sl.len - Lin.atom(("fdiv", newpos, 8, 0, MAXLEN)) + sl.start),
-                   VInt(64, False, lin=Lin.atom(("mod", newpos, 8)))))
+    if newpos.is_const():
+        nb = newpos.c // 8
+        rest = VTuple((VSlice(sl.buf, Lin.const(nb), sl.len + sl.start - nb), mk_const(newpos.c % 8, 64, False)))
+    else:
+        rest = VTuple((VSlice(sl.buf, Lin.atom(("fdiv", newpos, 8, 0, MAXLEN)), sl.len - Lin.atom(("fdiv", newpos, 8, 0, MAXLEN)) + sl.start),
+                       VInt(64, False, lin=Lin.atom(("mod", newpos, 8)))))
     st2 = s3
     st2.event("take_n", sl.buf, pos.c, k, nl.key(), takep.info["site"])
     return [(st2, ok_pair(rest, VElems(sl.buf, pos.c, k, nl, ev, cap)))]
@@ -1914,3 +1943,142 @@ def h_lossy(I, st, callee, target, args, ctx):
 def h_print(I, st, callee, target, args, ctx):
     st.event("output", "stdout" if target["def"].endswith("_print") else "stderr", tuple(ctx["term"].get("macros", [])[-1:]))
     return [(st, UNIT)]
+
+
+# ---- further nom combinators (so that ordinary refactorings stay analysable) -------------------
+
+@parser("tuple")
+def p_tuple(I, st, pv, inp, ctx):
+    ps = pv.args[0]
+    if not isinstance(ps, VTuple):
+        raise Unanalysable("tuple() of %r" % (ps,))
+    outs = [(st, inp, [])]
+    final = []
+    for p in ps.items:
+        nxt = []
+        for (s, cur, acc) in outs:
+            for s2, r in run(I, s, p, cur, ctx):
+                if is_ok(r):
+                    rest, v = r.fields[0].items
+                    nxt.append((s2, rest, acc + [v]))
+                else:
+                    final.append((s2, r))
+        outs = nxt
+    for (s, cur, acc) in outs:
+        final.append((s, ok_pair(cur, VTuple(acc))))
+    return final
+
+
+@parser("all_consuming")
+def p_all_consuming(I, st, pv, inp, ctx):
+    out = []
+    for s2, r in run(I, st, pv.args[0], inp, ctx):
+        if is_ok(r):
+            rest, v = r.fields[0].items
+            ln = input_len_key(I, s2, rest)
+            d = s2.decide(("le0", ln))
+            if d is None:
+                split_on_lin(s2, ln, "all_consuming")
+            if d:
+                out.append((s2, r))
+            else:
+                out.append((s2, nom_err(I, "Error", VOpaque("Eof"))))
+        else:
+            out.append((s2, r))
+    return out
+
+
+@parser("cut")
+def p_cut(I, st, pv, inp, ctx):
+    out = []
+    for s2, r in run(I, st, pv.args[0], inp, ctx):
+        if is_ok(r) or err_kind(I, r) != "Error":
+            out.append((s2, r))
+        else:
+            out.append((s2, nom_err(I, "Failure", r.fields[0].fields[0])))
+    return out
+
+
+@parser("recognize")
+def p_recognize(I, st, pv, inp, ctx):
+    out = []
+    for s2, r in run(I, st, pv.args[0], inp, ctx):
+        if is_ok(r) and isinstance(inp, VSlice):
+            rest, _ = r.fields[0].items
+            out.append((s2, ok_pair(rest, VSlice(inp.buf, inp.start, rest.start - inp.start))))
+        else:
+            out.append((s2, r))
+    return out
+
+
+@parser("char")
+def p_char(I, st, pv, inp, ctx):
+    c = pv.args[0]
+    cv = const_of(st, c, "char")
+    if cv is None or cv > 127:
+        raise Unanalysable("char() of a non-ASCII / non-constant character")
+    outs = PARSERS["tag"](I, st, VParser("tag", (VStr(("cstr", bytes([cv]))),), pv.info), inp, ctx)
+    res = []
+    for s2, r in outs:
+        if is_ok(r):
+            rest, _ = r.fields[0].items
+            res.append((s2, ok_pair(rest, mk_const(cv, 32, False))))
+        else:
+            res.append((s2, r))
+    return res
+
+
+for _k, _kind in [("nom::combinator::value", "value"), ("nom::combinator::map_opt", "map_opt"), ("nom::sequence::separated_pair", "separated_pair")]:
+    EXT[_k] = _mk(_kind)
+    CONTRACT[_k] = "total"
+
+
+@parser("value")
+def p_value(I, st, pv, inp, ctx):
+    out = []
+    for s2, r in run(I, st, pv.args[1], inp, ctx):
+        if is_ok(r):
+            rest, _ = r.fields[0].items
+            out.append((s2, ok_pair(rest, pv.args[0])))
+        else:
+            out.append((s2, r))
+    return out
+
+
+@parser("map_opt")
+def p_map_opt(I, st, pv, inp, ctx):
+    out = []
+    for s2, r in run(I, st, pv.args[0], inp, ctx):
+        if is_ok(r):
+            rest, v = r.fields[0].items
+            for s3, r2 in I.apply_callable(s2, pv.args[1], [v], ctx):
+                if isinstance(r2, VAdt) and r2.adt == OPTION:
+                    out.append((s3, ok_pair(rest, r2.fields[0]) if r2.variant == 1 else nom_err(I, "Error", VOpaque("MapOpt"))))
+                else:
+                    raise Unanalysable("map_opt closure returned %r" % (r2,))
+        else:
+            out.append((s2, r))
+    return out
+
+
+@parser("separated_pair")
+def p_separated_pair(I, st, pv, inp, ctx):
+    a, sep, b = pv.args
+    out = []
+    for s2, r in p_tuple(I, st, VParser("tuple", (VTuple((a, sep, b)),), pv.info), inp, ctx):
+        if is_ok(r):
+            rest, v = r.fields[0].items
+            out.append((s2, ok_pair(rest, VTuple((v.items[0], v.items[2])))))
+        else:
+            out.append((s2, r))
+    return out
+
+
+# ---- enumerate over a slice iterator ---------------------------------------------------------------
+
+@ext("core::iter::traits::iterator::Iterator::enumerate")
+def h_enumerate(I, st, callee, target, args, ctx):
+    it = args[0]
+    if isinstance(it, VIter):
+        return [(st, VIterEnum(it.slice, it.pos))]
+    raise Unanalysable("enumerate over %r" % (it,))
